@@ -436,6 +436,10 @@ class Gridder(GeospatialGrid):
                             variable[dateline_crossing_idx]
                             * first_segment_length
                             / total_segment_length
+                            # a zero-length crossing segment (the same point given as
+                            # -180 and +180 degrees) keeps its value in the first part
+                            if total_segment_length != 0
+                            else variable[dateline_crossing_idx]
                         ]
                     ),
                 )
@@ -525,6 +529,8 @@ class Gridder(GeospatialGrid):
                             var[dateline_crossing_idx]
                             * second_segment_length
                             / total_segment_length
+                            if total_segment_length != 0
+                            else 0.0
                         ]
                     ),
                     var[dateline_crossing_idx + 1 :],
